@@ -19,17 +19,20 @@ def run(ctx):
             {"post_yields": True, "line_level": LINE_FUNCS}]
     if not ctx.quick:
         opts.append({"post_yields": True, "transport": "socket", "chunking": "random"})
-    jobs = gc.jobs_for(progs, 12 if ctx.quick else 120, 5 if ctx.quick else 40, ctx.seed, opts)
-    res = gc.run_and_judge(ctx, jobs, ["C18.", "C02."], lambda evs: sum(1 for e in evs if e["ev"] == "ret" and e["op"] in ("newchannel", "remote_exec")) >= 3, None)
+    jobs = gc.jobs_for(progs, 24 if ctx.quick else 120, 10 if ctx.quick else 40, ctx.seed, opts)
+    # preemption-bounded systematic search (every schedule with <= 1 preemption, yields before and after each operation)
+    searches = [(p, 1, 250 if ctx.quick else 6000, {"post_yields": True}) for p in progs[: 6 if ctx.quick else 14]]
+    res = gc.run_and_judge(ctx, jobs, ["C18.", "C02."], lambda evs: sum(1 for e in evs if e["ev"] == "ret" and e["op"] in ("newchannel", "remote_exec")) >= 3, None, searches=searches)
     gwrun.close_pool()
     ctx.coverage.update({
         "states": mc["states"], "transitions": mc["transitions"],
         "traces_validated_against_impl": res["distinct"], "evaluations": res["runs"], "distinct_nontrivial": res["nontrivial"],
         "rule": "concurrent newchannel/remote_exec calls from several threads on both sides; channels created on either side passed over channels (plain and nested in containers) and used; open/transfer/close/drop cycles with the channel table size compared before and after; run on the real Gateway + WorkerGateway pair over real Popen2IO/SocketIO with scripted pipes under seeded random / PCT / "
-                "non-preemptive schedules, yielding before and after every synchronisation and IO operation and, in a quarter of the runs, before "
+                "non-preemptive schedules and a preemption-bounded systematic search (<= 1 preemption) for the first programs, yielding before and after every synchronisation and IO operation and, in a quarter of the runs, before "
                 "every source line of " + ", ".join(LINE_FUNCS) + "; distinct by event trace; non-trivial = at least three channels were created",
         "samples": [res["sample"]], "programs": len(progs), "verdict_histogram": res["hist"],
         "other_property_rejections": res["other_property_rejections"], "tlc": mc["detail"],
+        "bounded_search": {"programs": res["bounded_searches"], "runs": res["bounded_search_runs"], "finished_exhaustively": res["bounded_searches_finished"]},
     })
     ctx.assumptions += gc.ASSUMPTIONS
     return "model_checking"
